@@ -191,7 +191,11 @@ def run_case(prop, case, spec, scratch, stats):
                 mp = st.map()
                 try:
                     n = len(sb[0]) if size == 128 else len(sb[1])
-                    for blk in range(0, n, size):
+                    order = list(range(0, n, size))
+                    if rng.random() < 0.7:
+                        rng.shuffle(order)  # any order, and block 0 again after other blocks
+                        order.append(0)
+                    for blk in order:
                         stats["C15_mmap_blocks_compared"] += 1
                         x = mp.read(blk)
                         y = st.read(blk)
